@@ -340,6 +340,32 @@ pub fn corpus(idx: usize, seed: u64, w: &mut dyn Write, thorough: bool) -> Optio
                 }
             }
             g.battery_drain();
+            // the id of a bucket that changed hands in a sale, or was withdrawn, stays reserved: nobody may open a new
+            // bucket under it. Otherwise the next sale by the same seller paid with such a bucket would overwrite the
+            // seller's unwithdrawn proceeds (a non-owner changing a bucket that is not theirs: C04, C09, C01).
+            for (k, second_buyer) in ["david", "frank"].iter().enumerate() {
+                let n = 4100 + 10 * k as u64;
+                for lid in [n + 1, n + 2] {
+                    g.step(&x("carol", natives(&[(7, "uosmo")]), MMsg::CL { id: lid, create: create(&[(50, "uatom")]) }));
+                    g.step(&x("carol", vec![], MMsg::FI { id: lid, seconds: 600 }));
+                }
+                // frank buys the first listing with bucket n: (carol, n) now holds carol's proceeds
+                g.step(&x("frank", natives(&[(50, "uatom")]), MMsg::CB { id: n }));
+                g.step(&x("frank", vec![], MMsg::BL { listing_id: n + 1, bucket_id: n }));
+                // somebody (another account, or frank again) opens a bucket under the same id — must be refused —
+                // and pays for carol's second listing with it
+                g.step(&x(*second_buyer, natives(&[(50, "uatom")]), MMsg::CB { id: n }));
+                g.step(&x(*second_buyer, vec![], MMsg::BL { listing_id: n + 2, bucket_id: n }));
+                // carol takes her proceeds; the id stays reserved after the withdrawal too
+                g.step(&x("carol", vec![], MMsg::RB { id: n }));
+                g.step(&x(*second_buyer, natives(&[(50, "uatom")]), MMsg::CB { id: n }));
+                g.step(&x(*second_buyer, vec![], MMsg::BL { listing_id: n + 2, bucket_id: n }));
+                g.step(&x("carol", vec![], MMsg::RB { id: n }));
+                g.step(&x("frank", vec![], MMsg::WP { id: n + 1 }));
+                g.step(&x(*second_buyer, vec![], MMsg::WP { id: n + 2 }));
+                g.step(&x(*second_buyer, vec![], MMsg::RB { id: n }));
+            }
+            g.battery_drain();
             // goods of every kind in ONE record (NFT + CW20 + two native denominations): purchased and withdrawn,
             // deleted while preparing, deleted after expiry; every message of those payouts faulted in turn
             for (k, fate) in ["buy", "delete-preparing", "delete-expired"].iter().enumerate() {
